@@ -347,7 +347,24 @@ def context_lookup(chk, F):
         if d[0] == "variant" and d[3] == "None" and "arg1.temporaries" in s:
             temp_none = True
     # literal text lives in HIR; MIR shows them as const slices - count only
-    chk.decide(len([d for d in gs if d[0] == "bool" and d[2] is False]) >= 3 and temp_none, "context-lookup", fk, "ans-and-temporaries-first", fn.where(rb),
+    # the tests of the name that failed on the way to the registry: `name == "ans"` .. as a chain (three failing edges) or one
+    # membership test of a table of names (`NAMES.contains(&name)`); which names they are is decided from the HIR
+    name_tests = [d for d in gs if d[0] == "bool" and d[2] is False and "arg2" in ap_str(d[1]) and ("PartialEq" in ap_str(d[1]) or "]>::contains" in ap_str(d[1]))]
+    import shared_rules
+    from facts import hir_walk
+    names = None
+    for g in F.hirs_of(fn):
+        for e in hir_walk(g["body"]):
+            if e.get("k") == "If" and any(x.get("k") == "Field" and x.get("name") == "previous_result" for x in hir_walk(e["then"])):
+                acc = shared_rules.accepted_literals(F, CORE, e["cond"])
+                names = sorted(acc[0]) if acc else names
+            elif e.get("k") == "Match" and e.get("src") == "Normal":
+                for a in e["arms"]:
+                    if any(x.get("k") == "Field" and x.get("name") == "previous_result" for x in hir_walk(a["body"])) and not a.get("guard"):
+                        pats = a["pat"]["alts"] if a["pat"]["pk"] == "or" else [a["pat"]]
+                        lits = [p_["e"]["v"] for p_ in pats if p_["pk"] == "expr" and p_["e"].get("lit") == "str"]
+                        names = sorted(lits) if len(lits) == len(pats) else names
+    chk.decide((len(name_tests) >= 3 or (len(name_tests) >= 1 and names == ["ANS", "_", "ans"])) and temp_none, "context-lookup", fk, "ans-and-temporaries-first", fn.where(rb),
                "the registry is consulted only after the three ans-name tests failed and temporaries had no entry",
                "Registry::lookup is reachable without the ans/ANS/_ tests and the temporaries miss (guards: %s)" % [ap_str(d[1])[:50] for d in gs])
     chk.decide(is_whole_name(fn, fn.apath(name_op(F, rt))), "context-lookup", fk, "same-name", fn.where(rb),
@@ -408,42 +425,22 @@ def cycle_walk_reading(chk, F):
     Rule: in the closure that tries the prefixed reading, or in every place that uses it, the prefix iteration is reachable only
     through the failing edge of `base_units.contains(name)`."""
     import k2
-    root = F.find(CORE, "loader::load::closes_alias_cycle")
-    fam = [root] + [f for f in F.by_crate[CORE] if f.path.startswith(root.path + "::{closure")]
+    # normalised: the closures / nested fns / methods of a private reader struct that the walk is written with are part of it
+    root = F.find(CORE, "loader::load::closes_alias_cycle", inline=True)
     fk = "rink_core::loader::load::closes_alias_cycle"
 
-    def base_test(fn):
-        def acc(kind, ap, info):
-            r = ap[0]
-            if kind == "bool" and r[0] == "call" and r[1].endswith("::contains") and r[2] and "base_units" in ap_str(r[2][0]):
-                return {"false"}
-            return None
-        return acc
-    pf = []
-    for f in fam:
-        its = [bb for bb, t in f.calls() if "callee" in t and t["callee"]["path"].endswith("::iter") and t["args"] and "prefixes" in ap_str(f.apath(t["args"][0]))]
-        if its:
-            pf.append((f, its))
-    if len(pf) != 1:
-        raise AnchorLost("closes_alias_cycle: expected one closure that iterates registry.prefixes, found %d" % len(pf))
-    P, its = pf[0]
-    res, matched = k2.cut_gate(P, its, base_test(P))
+    def acc(kind, ap, info):
+        r = ap[0]
+        if kind == "bool" and r[0] == "call" and r[1].endswith("::contains") and r[2] and "base_units" in ap_str(r[2][0]):
+            return {"false"}
+        return None
+    its = [bb for bb, t in root.calls() if "callee" in t and t["callee"]["path"].endswith("::iter") and t["args"]
+           and "prefixes" in ap_str(root.apath(t["args"][0]))]
+    if not its:
+        raise AnchorLost("closes_alias_cycle: no iteration over registry.prefixes found in the walk (helpers and closures included)")
+    res, matched = k2.cut_gate(root, its, acc)
     ok = bool(matched) and all(res.values())
-    where = P.where(its[0])
-    if not ok:
-        # every use of P (a call, or P handed to a combinator / captured by another closure) in the enclosing closure
-        users = [f for f in fam if f.id != P.id and P.path.startswith(f.path + "::{closure")]
-        users.sort(key=lambda f: -len(f.path))
-        D = users[0] if users else None
-        if D is not None:
-            acts = []
-            for bb, t in D.calls():
-                if "callee" in t and (t["callee"]["path"] == P.path or any(("closure:" + P.path.rsplit("::{closure", 1)[0]) in ap_str(D.apath(a)) for a in t["args"])):
-                    acts.append(bb)
-            if acts:
-                res, matched = k2.cut_gate(D, acts, base_test(D))
-                ok = bool(matched) and all(res.values())
-                where = D.where(acts[0])
+    where = root.where(its[0])
     chk.decide(ok, "exact-stage-agreement", fk, "cycle-walk-reads-base-units-exactly", where,
                "the alias-cycle walk tries a prefixed reading of a name only after `base_units.contains(name)` failed, like lookup",
                "the alias-cycle walk strips prefixes from a name without first asking whether it is a base unit: `cd` is read as centi-`d`, so "
